@@ -84,23 +84,36 @@ def build_object(spec, shared):
 _CUSTOM = {}
 
 
-def custom_table_palette():
-    """a table palette that re-maps the palette of enum cells (SUB_PALETTES_MAP)"""
-    if not _CUSTOM:
+def custom_table_palette(variant=1):
+    """a table palette that re-maps the palette of enum cells (SUB_PALETTES_MAP).  The classes are made by this
+    factory: variant 1 and variant 2 are different classes with the SAME qualified names; the second one brings
+    syntax ids and defaults of its own"""
+    if variant not in _CUSTOM:
         from ak.ppobj import PPEnumFieldType
         from ak.color import ConfColor
 
         class VfEnumPalette(PPEnumFieldType.EnumPalette):
-            value = ConfColor('NUMBER')
-            name_good = ConfColor('OK')
+            if variant == 2:
+                # (a class that declares defaults of its own repeats those of the class it derives from)
+                SYNTAX_DEFAULTS = dict(PPEnumFieldType.EnumPalette.SYNTAX_DEFAULTS or {},
+                                       **{"VFCUSTOM.VALUE": "MAGENTA:bold", "VFCUSTOM.GOOD": "CYAN/BLUE"})
+                value = ConfColor('VFCUSTOM.VALUE')
+                name_good = ConfColor('VFCUSTOM.GOOD')
+            else:
+                value = ConfColor('NUMBER')
+                name_good = ConfColor('OK')
             name_warn = ConfColor('WARN')
 
         class VfTablePalette(PPTable.TablePalette):
             SUB_PALETTES_MAP = {PPEnumFieldType.EnumPalette: VfEnumPalette}
-            border = ConfColor('KEYWORD')
+            if variant == 2:
+                SYNTAX_DEFAULTS = dict(PPTable.TablePalette.SYNTAX_DEFAULTS or {}, **{"VFCUSTOM.BORDER": "YELLOW:underline"})
+                border = ConfColor('VFCUSTOM.BORDER')
+            else:
+                border = ConfColor('KEYWORD')
 
-        _CUSTOM['table'] = VfTablePalette
-    return _CUSTOM['table']
+        _CUSTOM[variant] = VfTablePalette
+    return _CUSTOM[variant]
 
 
 PALETTE_CLASSES = {'table': lambda: PPTable.TablePalette, 'pp': lambda: PrettyPrinter.PPPalette,
@@ -155,8 +168,8 @@ def render(obj, ospec, req, conf_dict, live_conf=None, observe=None):
         kw = dict(no_color=no_color)
     elif via == 'palette_class' and kind in PALETTE_CLASSES:
         kw = dict(palette=PALETTE_CLASSES[kind](), colors_conf=conf, no_color=no_color)
-    elif via == 'custom_palette' and kind == 'table':
-        kw = dict(palette=custom_table_palette(), colors_conf=conf, no_color=no_color)
+    elif via in ('custom_palette', 'custom_palette2') and kind == 'table':
+        kw = dict(palette=custom_table_palette(2 if via.endswith('2') else 1), colors_conf=conf, no_color=no_color)
     elif via == 'palette_obj' and kind in PALETTE_CLASSES:
         kw = dict(palette=PALETTE_CLASSES[kind]()(conf), no_color=no_color)
     else:
